@@ -143,8 +143,13 @@ func (td *typeDecls) declare(name string, o *VOpaque, depth int) {
 
 // typecheckResid type-checks a residual; sigs gives the signature text for FUNC holes (by hole), or "" to skip the residual.
 func typecheckResid(rs *Resid, funcSig func(h *Hole, td *typeDecls) string) ([]string, bool) {
+	errs, done, _ := typecheckResidSrc(rs, funcSig)
+	return errs, done
+}
+
+func typecheckResidSrc(rs *Resid, funcSig func(h *Hole, td *typeDecls) string) ([]string, bool, string) {
 	if rs.Err != nil {
-		return nil, false
+		return nil, false, ""
 	}
 	td := &typeDecls{rs: rs, byVal: map[*VOpaque]string{}}
 	// TYPE holes first so that they keep their placeholder names
@@ -198,18 +203,18 @@ func typecheckResid(rs *Resid, funcSig func(h *Hole, td *typeDecls) string) ([]s
 				sig = funcSig(h, td)
 			}
 			if sig == "" {
-				return nil, false
+				return nil, false, ""
 			}
 			td.decls = append(td.decls, fmt.Sprintf("func %s%s { panic(0) }", id, sig))
 		case "EXPR", "OPAQUE":
-			return nil, false
+			return nil, false, ""
 		}
 	}
 	src := strings.Replace(rs.Run.Text, "package p\n", "package p\n"+strings.Join(imports, "\n")+"\n", 1) + "\n" + strings.Join(td.decls, "\n") + "\n"
 	fset := token.NewFileSet()
 	f, err := parser.ParseFile(fset, "typed.go", src, 0)
 	if err != nil {
-		return []string{"(declarations) " + err.Error()}, true
+		return []string{"(declarations) " + err.Error()}, true, src
 	}
 	var errs []string
 	conf := types.Config{Importer: stdImporter(), Error: func(e error) {
@@ -223,7 +228,7 @@ func typecheckResid(rs *Resid, funcSig func(h *Hole, td *typeDecls) string) ([]s
 		}
 	}}
 	conf.Check("p", fset, []*ast.File{f}, nil)
-	return errs, true
+	return errs, true, src
 }
 
 // docSig: the documented signatures of the plugins' functions, used for FUNC holes (frozen from Readme / package docs).
@@ -265,4 +270,66 @@ func docSig(h *Hole, td *typeDecls) string {
 		}
 	}
 	return ""
+}
+
+// cmdTyped: debugging aid — type-check the residuals of a plugin and print an error histogram.
+func cmdTyped(args []string) {
+	tier := "quick"
+	verbose := 0
+	for _, a := range args[1:] {
+		if strings.HasPrefix(a, "-v") {
+			verbose = 1
+			fmt.Sscanf(a, "-v%d", &verbose)
+		} else {
+			tier = a
+		}
+	}
+	repo, err := loadRepo()
+	if err != nil {
+		fmt.Println(err)
+		return
+	}
+	c := &Ctx{Repo: repo, Rep: newReport("X", tier), Tier: tier}
+	c.R = newSweeper(repo, tier)
+	plugins := []string{args[0]}
+	if args[0] == "ALL" {
+		plugins = repo.Plugins
+	}
+	c.R.Prefetch(plugins...)
+	for _, p := range plugins {
+		typed, skipped, bad := 0, 0, 0
+		hist := map[string]int{}
+		ex := map[string]string{}
+		for _, rs := range c.acceptedResids(p) {
+			if rs.Err != nil {
+				continue
+			}
+			errs, done, src := typecheckResidSrc(rs, docSig)
+			if !done {
+				skipped++
+				continue
+			}
+			typed++
+			if len(errs) > 0 {
+				bad++
+				k := holeRe.ReplaceAllString(stripLine(errs[0]), "_")
+				hist[k]++
+				if ex[k] == "" {
+					ex[k] = fmt.Sprintf("script=%v\n%s\n%s\nerrors: %s", rs.Run.Script, rs.Run.describe(), src, strings.Join(errs, "\n        "))
+				}
+			}
+		}
+		fmt.Printf("## %-10s typed=%d skipped=%d with-errors=%d\n", p, typed, skipped, bad)
+		var ks []string
+		for k := range hist {
+			ks = append(ks, k)
+		}
+		sort.Strings(ks)
+		for _, k := range ks {
+			fmt.Printf("   %4d  %s\n", hist[k], k)
+			if verbose > 0 {
+				fmt.Println(ex[k])
+			}
+		}
+	}
 }
